@@ -538,10 +538,12 @@ func partialIfThenElse(env Env, v ast.NodeTypeIfThenElse) (ast.IsNode, error) {
 // evaluated as usual.
 func partialIsInShortCircuit(env Env, v ast.NodeTypeIsIn) (n ast.IsNode, done bool, err error) {
 	left, leftErr := partial(env, v.Left)
+	_, leftKnown := left.(ast.NodeValue)
 	switch {
-	case errors.Is(leftErr, errVariable):
-		// Unknown left operand: whether e is evaluated at all depends on the unknown, so a failure of e has to stay
-		// inside the residual expression instead of failing the whole condition now.
+	case errors.Is(leftErr, errVariable), leftErr == nil && !leftKnown:
+		// Unknown left operand (an unknown itself, or a residual expression that depends on one): whether e is
+		// evaluated at all depends on the unknown, so a failure of e has to stay inside the residual expression
+		// instead of failing the whole condition now.
 		right, rightErr := partial(env, v.Entity)
 		switch {
 		case errors.Is(rightErr, errIgnore):
